@@ -42,6 +42,50 @@ class Gateway:
         self.nreports_delivered = 0
         self.triggers = list(scenario.get("triggers", []))   # [kind, n, action]
         self.write_error = False
+        # how many reports to release at the k-th boundary at which something is due (-1 = all); after the plan: all
+        self.release_plan = list(scenario.get("release_plan", []))
+        # which frames are queries / sent twice: from the specification's command tables (the bus only answers queries)
+        from . import core
+        t = core.spec_tables()
+        self.std = {}
+        for row in t["gear"]:
+            dt = {"102": 0, "202": 1, "205": 4, "206": 5, "207": 6, "209": 8}[row[0]]
+            for k in range(16 if "P" in row[3] else 1):
+                self.std[(dt, row[2] + k)] = ("T" in row[3], row[4] != "-")
+        self.special = {row[2]: ("T" in row[3], row[4] != "-") for row in t["gearspecial"]}
+        self.dev24 = {row[2]: ("T" in row[3], row[4] != "-") for row in t["dev"]}
+        self.inst24 = {row[2]: ("T" in row[3], row[4] != "-") for row in t["inst"]}
+        self.special24 = [(row[2], row[3], row[4], row[5] != "-") for row in t["devspecial"]]
+        self.dt = 0
+
+    def classify(self, frame, bits=16):
+        """-> (sent twice, query) for a forward frame, tracking ENABLE DEVICE TYPE like a bus unit"""
+        if bits == 24:
+            ab, ib, ob = frame >> 16, (frame >> 8) & 0xFF, frame & 0xFF
+            if not ab & 1:
+                return False, False
+            a7 = ab >> 1
+            if a7 < 96 or a7 >= 126:
+                return (self.dev24 if ib == 0xFE else self.inst24).get(ob, (False, False))
+            for sab, sib, fl, q in self.special24:
+                if sab == ab and ("2" in fl or sib == ib):
+                    return "T" in fl, q
+            return False, False
+        if bits != 16:
+            return False, False
+        hb, lb = frame >> 8, frame & 0xFF
+        a7 = hb >> 1
+        if a7 < 80 or a7 >= 126:
+            if not hb & 1:
+                return False, False
+            return self.std.get((self.dt if lb >= 224 else 0, lb), (False, False))
+        return self.special.get(hb, (False, False))
+
+    def answer_for(self, k, frame, bits):
+        """outcome on the bus for the k-th command: non-queries are never answered"""
+        twice, query = self.classify(frame, bits)
+        self.dt = (frame & 0xFF) if (bits == 16 and (frame >> 8) == 0xC1) else 0
+        return self.outcome_for(k) if query else ("none", 0)
 
     # -- scenario hooks -----------------------------------------------------------
     def outcome_for(self, k):
@@ -76,8 +120,12 @@ class Gateway:
     # -- loop side ------------------------------------------------------------------
     def release(self, now):
         n = 0
+        limit = self.per_boundary
+        if self.pending and self.pending[0][0] <= now + 1e-12 and self.release_plan:
+            k = self.release_plan.pop(0)
+            limit = None if k < 0 else k
         while self.pending and self.pending[0][0] <= now + 1e-12:
-            if self.per_boundary is not None and n >= self.per_boundary:
+            if limit is not None and n >= limit:
                 break
             self.arrived.append(self.pending.popleft()[1])
             n += 1
@@ -177,7 +225,7 @@ class GwTridonic(Gateway):
         twice = bool(ctrl & 0x20)
         k = self.ncmd
         self.ncmd += 1
-        outcome = self.outcome_for(k)
+        outcome = self.answer_for(k, int.from_bytes(frame4, "big"), bits)
         self.cmdlog.append({"ix": k + 1, "task": self.writes[-1]["task"], "frame": int.from_bytes(frame4, "big"),
                             "bits": bits, "twice": 1 if twice else 0, "outcome": list(outcome), "seq": seq,
                             "write": len(self.writes)})
@@ -209,29 +257,11 @@ class GwHasseb(Gateway):
 
     def __init__(self, loop, scenario):
         super().__init__(loop, scenario)
-        from . import core
-        t = core.spec_tables()
-        self.std = {}
-        for row in t["gear"]:
-            dt = {"102": 0, "202": 1, "205": 4, "206": 5, "207": 6, "209": 8}[row[0]]
-            for k in range(16 if "P" in row[3] else 1):
-                self.std[(dt, row[2] + k)] = ("T" in row[3], row[4] != "-")
-        self.special = {row[2]: ("T" in row[3], row[4] != "-") for row in t["gearspecial"]}
         self.half = None
-        self.dt = 0
 
     def on_open(self):
         self.half = None
         self.dt = 0
-
-    def classify(self, frame):
-        hb, lb = frame >> 8, frame & 0xFF
-        a7 = hb >> 1
-        if a7 < 80 or a7 >= 126:
-            if not hb & 1:
-                return False, False
-            return self.std.get((self.dt if lb >= 224 else 0, lb), (False, False))
-        return self.special.get(hb, (False, False))
 
     def on_write(self, data):
         frame = int.from_bytes(data[:2], "big")
@@ -242,8 +272,7 @@ class GwHasseb(Gateway):
         self.half = None
         k = self.ncmd
         self.ncmd += 1
-        self.dt = (frame & 0xFF) if (frame >> 8) == 0xC1 else 0
-        outcome = self.outcome_for(k)
+        outcome = self.answer_for(k, frame, 16)
         self.cmdlog.append({"ix": k + 1, "task": self.writes[-1]["task"], "frame": frame, "bits": 16,
                             "twice": 1 if twice else 0, "outcome": list(outcome), "seq": 0, "write": len(self.writes)})
         if query:
@@ -256,6 +285,15 @@ class GwHasseb(Gateway):
 
     def idle_report(self):
         self.emit([0, 0])
+
+    def observe(self, kind, value=0, bits=16):
+        """a late answer of an earlier command / an idle report (the device cannot see other masters)"""
+        if kind == "back":
+            self.emit([2, value])
+        elif kind == "err":
+            self.emit([3, 0xFF])
+        else:
+            self.emit([0, 0])
 
 
 # ---------------------------------------------------------------------------------------------
@@ -319,7 +357,7 @@ class GwLuba(SerialGateway):
             twice = bool(mode & 0x80)
             k = self.ncmd
             self.ncmd += 1
-            outcome = self.outcome_for(k)
+            outcome = self.answer_for(k, int.from_bytes(bytes(fb), "big"), nbits)
             tx_id = (k + 1) % 256
             self.cmdlog.append({"ix": k + 1, "task": self.writes[-1]["task"], "frame": int.from_bytes(bytes(fb), "big"),
                                 "bits": nbits, "twice": 1 if twice else 0, "outcome": list(outcome), "seq": tx_id,
@@ -362,7 +400,7 @@ class GwSci(SerialGateway):
         twice = bool(control & 0x10)
         k = self.ncmd
         self.ncmd += 1
-        outcome = self.outcome_for(k)
+        outcome = self.answer_for(k, int.from_bytes(bytes(fb), "big"), 8 * nbytes)
         self.cmdlog.append({"ix": k + 1, "task": self.writes[-1]["task"], "frame": int.from_bytes(bytes(fb), "big"),
                             "bits": 8 * nbytes, "twice": 1 if twice else 0, "outcome": list(outcome), "seq": 0,
                             "write": len(self.writes)})
